@@ -5,6 +5,8 @@ def _jobs():
     for procs in (2, 4, 16):
         out.append(J("c20.rounds", configs=["avx2"], variant="race", shards=(3, 12), floor=10, procs=procs))
         out.append(J("c20.rounds", configs=["noaes"], variant="race", shards=(2, 6), floor=10, procs=procs))
+    # AES-NI without PCLMULQDQ: the table-driven GCM over assembly batches is a separate AEAD type
+    out.append(J("c20.rounds", configs=["noclmul"], variant="race", shards=(3, 8), floor=10, procs=8))
     out.append(J("c20.rounds", configs=["purego"], variant="race-purego", shards=(2, 8), floor=10, procs=8))
     return out
 
